@@ -41,6 +41,7 @@ from .helper import get_query_helper_cls
 from .helper.expression_helper import value_nodes_from_path
 from .helper.path_helper import shacl_path_to_sparql_path
 from .helper.sparql_query_helper import query_with_shapes_graph_text
+from .rdfutil.closure import transitive_subjects
 from .pytypes import GraphLike, RDFNode, SHACLExecutor
 
 if TYPE_CHECKING:
@@ -237,7 +238,7 @@ class Shape(object):
         types = list(self.sg.graph.objects(self.node, RDF_type))
         # a shape is also a class when it is a SHACL instance of rdfs:Class:
         # rdf:type followed by zero or more rdfs:subClassOf steps in the shapes graph
-        subclasses = set(self.sg.graph.transitive_subjects(RDFS_subClassOf, RDFS_Class))
+        subclasses = set(transitive_subjects(self.sg.graph, RDFS_subClassOf, RDFS_Class))
         for t in types:
             if t in subclasses:
                 return [self.node]
@@ -349,7 +350,7 @@ class Shape(object):
         for tc in target_classes:
             s = data_graph.subjects(RDF_type, tc)
             found_target_instances.update(s)
-            subc = data_graph.transitive_subjects(RDFS_subClassOf, tc)
+            subc = transitive_subjects(data_graph, RDFS_subClassOf, tc)
             for subclass in iter(subc):
                 if subclass == tc:
                     continue
